@@ -25,26 +25,29 @@ if NODEMO:
     # a patch already filed under /verif/seeded/<name>/ (reverse of a fix commit): no scratch demo
     meta = json.load(open(f"{out}/meta.json"))
     meta["ran"] = []
+    if not os.path.exists(wt):
+        subprocess.run(f"git -C /repo worktree add -q --detach {wt} HEAD", shell=True)
     os.makedirs(seed, exist_ok=True)
     shutil.copy(f"{out}/patch.diff", patch)
 if not os.path.exists(patch):
     print("no patch at", patch); sys.exit(2)
 
+FEAT = ""
+if os.path.exists(f"{seed}/seed_demo.rs") and "feature" in open(f"{seed}/seed_demo.rs").read():
+    FEAT = " --features hashbrown,indexmap,slotmap,smallvec,enum-map"
 # --- 1. confirm in the scratch worktree
-if NODEMO:
-    sh(f"git -C /repo worktree add -q --detach {wt} HEAD")
 sh("git checkout -- src derive", cwd=wt)
 if NODEMO:
     open(f"{seed}/seed_demo.rs", "w").write("// no separate demonstration: the defect is the one described in known_findings.jsonl\n#[test] fn placeholder() {}\n")
 shutil.copy(f"{seed}/seed_demo.rs", f"{wt}/tests/seed_demo.rs")
-rc0, o0 = sh("cargo test --offline --test seed_demo 2>&1 | tail -15", cwd=wt)
+rc0, o0 = sh(f"cargo test --offline{FEAT} --test seed_demo 2>&1 | tail -15", cwd=wt)
 demo_passes_without = "test result: ok" in o0
 rc, o = sh(f"git apply {patch} || git apply -C1 {patch}", cwd=wt)
 if rc != 0:
     print("patch does not apply in worktree", o); sys.exit(2)
-rc1, o1 = sh("cargo test --offline --test seed_demo 2>&1 | tail -15", cwd=wt)
+rc1, o1 = sh(f"cargo test --offline{FEAT} --test seed_demo 2>&1 | tail -15", cwd=wt)
 demo_fails_with = "test result: ok" not in o1
-rc2, o2 = sh("cargo test --offline --test tests 2>&1 | grep -E '^test result|error' | head -3", cwd=wt)
+rc2, o2 = sh(f"cargo test --offline{FEAT} --test tests 2>&1 | grep -E '^test result|error' | head -3", cwd=wt)
 suite_passes_with = "39 passed; 0 failed" in o2
 meta["confirmed"] = dict(demo_passes_on_original=demo_passes_without, demo_fails_with_change=demo_fails_with, existing_suite_passes_with_change=suite_passes_with)
 meta["ran"].append(f"in {wt}: cargo test --offline --test seed_demo (original: {'pass' if demo_passes_without else 'FAIL'}; with change: {'fail' if demo_fails_with else 'PASS'}); cargo test --offline --test tests with change: {o2.strip()[:80]}")
